@@ -234,7 +234,7 @@ fn f04_class(bytes: &[u8]) -> bool {
     false
 }
 
-fn iter_diff(v: &IterCase, rep: &mut Rep, strict: bool) -> Result<(), String> {
+pub fn iter_diff(v: &IterCase, rep: &mut Rep, strict: bool) -> Result<(), String> {
     let (stream, inject, extra_cap, sched, start) = v;
     let enc = stream.encode_raw();
     let mut bytes = enc.bytes;
@@ -349,6 +349,7 @@ pub fn def(tier: Tier) -> PropertyDef {
                 .shrink_iters(300)
                 .boxed(),
             sub("suffix_position", tier.pick(10_000, 300_000), (stream(12, false, 300), any::<u16>(), start), suffix_check).rates(&[("proper_suffix", 0.3)]).boxed(),
+            crate::fuzzing::fuzz_sub("framing", "fuzz_framing", tier.pick(2_000, 20_000)),
             // only used to replay the pinned reproducer of the open finding F04 (no exclusion)
             sub("f04_strict", std::env::var("VERIF_DEV_F04").ok().and_then(|s| s.parse().ok()).unwrap_or(0), f04_strict, |v, r| iter_diff(v, r, true)).boxed(),
         ],
